@@ -411,6 +411,8 @@ def build_file(U, root=REPO):
             if it.get("pubfields"):
                 t2 = re.sub(r"\((\s*)(?!pub)", r"(\1pub ", t, count=1)
                 t = t2
+            for a, b in it.get("replace", []):
+                t = t.replace(a, b)
             if not t.startswith("pub"):
                 t = "pub " + t
             parts.append(it.get("attrs", "") + t + "\n" + it.get("after", ""))
